@@ -145,6 +145,16 @@ pub fn plan_for(prop: &str, tier: Tier) -> Option<PropPlan> {
                 Plan { shape: Shape::History, groups: G_LAYOUT | G_BACKEND, random: Some((hc, ho)), spec: spec("C10", OPS_CAP | ops(&[OP_PUSH, OP_INSERT, OP_POP, OP_REMOVE, OP_BULK_PUSH, OP_CLEAR]), MON_CAP, l) },
             ],
         }),
+        "C11" => Some(PropPlan {
+            rule: "case = (generated Stack<SIZE> / StackN<N,SIZE> with SIZE and N on grids around multiples of the element size incl. N x size overflowing usize; construction, capacity formula, fill to capacity, refused push/insert beyond it, allocator window must stay empty) | (every C01/C02/C08 operation instance from every state up to capacity on stack-backed vectors: equality with the Vec model = behaviour of the heap backend, panic with contents unchanged beyond capacity, zero heap events); non-trivial = the case ends at or crosses the capacity boundary, or construction must panic; distinct = distinct (configuration, pick sequence)",
+            bound: format!("294 generated (element, SIZE, N) grid points x fill levels; exhaustive one-step + clone-then-step for every state up to capacity on 9+ stack configurations; proptest {} histories x <= {} ops", hc, ho),
+            plans: vec![
+                Plan { shape: Shape::Grid, groups: G_GRID, random: None, spec: spec("C11", 0, MON_MODEL | MON_NOALLOC | MON_CAP, 8) },
+                Plan { shape: Shape::Step, groups: G_STACK, random: None, spec: spec("C11", OPS_C01 | OPS_C02 | ops(&[OP_CLONE, OP_CLONE_EMPTY]), MON_MODEL | MON_NOALLOC | MON_CAP | MON_CLONE, 8) },
+                Plan { shape: Shape::CloneThen, groups: G_STACK, random: None, spec: spec("C11", OPS_C01, MON_MODEL | MON_NOALLOC | MON_CAP | MON_CLONE, 8) },
+                Plan { shape: Shape::History, groups: G_STACK, random: Some((hc, ho)), spec: spec("C11", OPS_C01 | OPS_C02 | ops(&[OP_CLONE, OP_CLONE_EMPTY, OP_DROP_NEW]), MON_MODEL | MON_NOALLOC | MON_CAP | MON_CLONE, 8) },
+            ],
+        }),
         "C12" => Some(PropPlan {
             rule: "case = ((len, capacity) state, every view: as_bytes/as_bytes_mut/spare_bytes_mut/typed as_ptr/as_slice/as_mut_slice/spare_capacity_mut compared by address arithmetic with base + len x size; k values written into spare capacity (typed or byte view) + set_len) | (vector value moved to every admissible offset of a 64-byte aligned arena, storage pointer alignment checked by integer arithmetic when empty and after each push); non-trivial = alignment>8, or size not in {0,8}, or 0<len<cap, or non-zero placement offset; distinct = distinct (configuration, pick sequence)",
             bound: format!("exhaustive for len<={} x capacity classes on all layouts and backends incl. over-aligned elements on inline backends; every offset in one 64-byte period", l),
